@@ -644,6 +644,12 @@ def _check_compute_checksum(rep, M, ce, fn, file, Ex):
         if isinstance(n, (ast.Global, ast.Nonlocal)):
             rep.violation("O7", at, "stateful", "compute_checksum declares global state", file, n.lineno)
             return
+    # through the public function itself (decorators included), on bytes and on a bytearray
+    from sa.fcsworlds import one_shot
+    os2 = one_shot(M)
+    if os2[0] == "bad":
+        rep.violation("O7", at, "window", os2[1], file, fn.node.lineno)
+        return
     cells, mismatch, why_not = _window_grid(M, ce, fn, Ex)
     rep.count("window_cells", cells)
     if mismatch is not None:
